@@ -9,7 +9,7 @@ DEFAULT = dict(
     AckMode='"shaped"', ThrMode='"fixed"', EmptyMode='"fixed"', RstMode='"fixed"',
     CfgSet="OneCfg", SameCfg="TRUE", Openers='{"A"}', MaxOpens=1, Ids="{1}", Hosts='{"h0"}',
     MaxWrites=0, Writers='{"A", "B"}', Lens="{1}", ReadMax="{4}", Closers="{}", MuxDroppers="{}", Cancellers="{}", DgSenders="{}", MaxDgrams=0,
-    Binders="{}", MaxBinds=0, Faults="{}", AdvMsgs="{}", MaxAdv=0, Bridgers="{}", MaxNow=0, MaxHandles=2, MaxCtr=3,
+    Binders="{}", MaxBinds=0, Faults="{}", AdvMsgs="{}", MaxAdv=0, Bridgers="{}", SplitFlush="FALSE", MaxNow=0, MaxHandles=2, MaxCtr=3,
 )
 INV = "NoViolation TypeOK AckSound QueueBound InitialCredit ExactlyOne TargetCarried BoundedRetry Released DoneResolved NoOrphanWriter"
 
@@ -46,6 +46,9 @@ CONFIGS = {
     # C13: the acceptor bridges its stream to a scripted local side; every environment at every poll
     "MC_Bridge_q": dict(CfgSet="TinyCfg", MaxWrites=1, Bridgers='{"B"}', Closers='{"A"}', MaxHandles=1, MaxCtr=1),
     "MC_Bridge": dict(CfgSet="CloseCfgs", MaxWrites=2, Bridgers='{"B"}', Closers='{"A"}', MaxHandles=1, MaxCtr=1),
+    # the sink takes its time to flush: message and flush are separate steps (data path, teardown)
+    "MC_Flush_q": dict(CfgSet="TinyCfg", SplitFlush="TRUE", MaxWrites=1, Closers='{"A"}', MuxDroppers='{"A"}', Faults='{"cutsink", "softcut"}', MaxHandles=1, MaxCtr=1),
+    "MC_Flush": dict(CfgSet="CloseCfgs", SplitFlush="TRUE", MaxWrites=2, Closers='{"A", "B"}', MuxDroppers='{"A", "B"}', Faults='{"cutsrc", "cutsink", "softcut"}', MaxHandles=1, MaxCtr=1),
     # C16 / C08: keepalive next to a stream: time advances, a peer that is not polled is a dead peer, every teardown cause
     "MC_Ka_q": dict(CfgSet="KaCfgsQ", SameCfg="TRUE", MaxWrites=0, MaxNow=2, MaxHandles=1, MaxCtr=1),
     "MC_Ka": dict(CfgSet="KaCfgsQ", SameCfg="FALSE", MaxWrites=0, MaxNow=2, MuxDroppers='{"A"}', MaxHandles=1, MaxCtr=1),
